@@ -366,7 +366,7 @@ def run_script(ops_or_len, rng, drv, res, fast=True):
                     findings.append({"kind": "spec", "signature": "lookup.%s.%s.%s" % (key, (W.get(e)._data.get(".NS") or "none"), what),
                                      "step": len(script) - 1, "detail": "get_%s(%s, %r, key=%s) = %s, scan = %s" % (ck, e, v, key, got, scan)})
                 ml = drv.ask({"cmd": "nlookup", "p": e, "kd": ck, "k": key, "v": v})
-                mm = [] if ml["lookup"] is None else [ml["lookup"]]
+                mm = sorted(ml["lookup"])
                 if mm != got:
                     findings.append({"kind": "corr", "signature": "names.lookup.%s" % key, "step": len(script) - 1,
                                      "detail": "get_%s(%s,%r,key=%s): impl %s model %s" % (ck, e, v, key, got, mm)})
